@@ -34,9 +34,16 @@ def parseInt (s : String) : Int := s.toInt?.getD 0
 def csrOfFields (f : List String) : CSR :=
   let form := fieldAt f 0
   let pemOk := !(form == "nopem" || form == "empty")
-  let derOk := form == "ok" || form == "oktype" || form == "oktrail" || form == "oklead" || form == "badsig"
+  let derOk := form == "ok" || form == "oktype" || form == "oktrail" || form == "oklead" || form == "badsig" || form == "gen"
   { pemOk := pemOk, derOk := derOk, sigOk := derOk && form != "badsig",
-    pubKey := fieldAt f 1, cn := fieldAt f 2, subject := [fieldAt f 3],
+    pubKey := fieldAt f 1,
+    -- form `gen` (real util.GenCSR): dual-use CN = the first requested host, if a CN is asked for and it fits 64 bytes
+    cn := if form == "gen" then
+            (match decList (fieldAt f 4) with
+             | h :: _ => if fieldAt f 2 != "" && h.utf8ByteSize ≤ 64 then h else ""
+             | [] => "")
+          else fieldAt f 2,
+    subject := [fieldAt f 3],
     sans := decList (fieldAt f 4), wantCA := fieldAt f 5 == "1",
     exts := if fieldAt f 6 == "1" then ["private"] else [] }
 
@@ -128,6 +135,28 @@ def stepIssue (d : DState) (toks : List String) : DState × String :=
     match newIstioCA b (parseInt dflt * sec) (parseInt mx * sec) d.clock with
     | none => ({ d with ca := none, clock := d.clock + tick }, "ca-err")
     | some ca => ({ d with ca := some ca, clock := d.clock + tick }, "ca-ok")
+  | ["rot", life, chain] =>
+    match d.ca with
+    | none => (d, "bad-op")
+    | some ca =>
+      if parseInt life ≤ 0 then ({ d with clock := d.clock + tick }, "rot-err")   -- VerifyAndSetAll refuses an expired signer
+      else
+        let na := d.clock + parseInt life * sec
+        let b : Bundle := { signerNotAfter := some na, chain := if chain == "-" then [] else [{ name := "c", notAfter := na }], hasRoot := true }
+        ({ d with ca := some (ca.rotated b), clock := d.clock + tick }, "rot-ok")
+  | ["genkeycert", hosts, ttl] =>
+    match d.ca with
+    | none => (d, "bad-op")
+    | some ca =>
+      let now := d.clock + tick
+      match sign repoFixes ca {} (decList hosts) (parseInt ttl * sec) false false now with
+      | .err _ => ({ d with clock := now }, "err")
+      | .ok cd =>
+        let t := cd.tmpl
+        let clamp := ca.bundle.signerNotAfter == some t.notAfter
+        let life := if clamp then "clamp" else toString ((t.notAfter - t.notBefore) / sec - 120)
+        let san := if t.san.isEmpty then "-" else ",".intercalate (t.san.map showSan)
+        ({ d with clock := now }, s!"ok san={san} ca={boolTok t.isCA} sig=1 life={life}")
   | ["pod", "add", cl, pod] =>
     let p := podOfFields (decFields (dec pod))
     let cs := onSlot (dec cl) (onCurPods (fun ps => ps ++ [p])) d.clusters
